@@ -23,7 +23,9 @@ COORDS = {
 ALGO = {'BIN': 0, 'PRE': 1, 'SW': 2, 'C1': 3, 'C2': 4, 'SAME': 5}   # EC_PF_FXP_MULT_ALGO_* / EC_PF_UNKPT_MULT_ALGO_*
 TWIN = {'BIN': 0, 'FU': 1, 'JOINT': 2, 'INTER': 3}                  # EC_PF_TWIN_MULT_ALGO_*
 SW_W = [1, 2, 4, 8]                 # sliding window: powers of two, not wider than the narrowest digit
-COMB_W = [1, 2, 3, 4, 5, 6, 8, 9]   # comb: any width; 3,5,6,9 do not divide m, 8/9 give one or two columns
+# comb: any width up to the digit width (the column index is a bn_digit_t, NOTES.md section 4); 3, 5, 6, 9 do not
+# divide m, 6 gives an odd number of columns for m = 16, 8 / 9 give one or two columns
+COMB_W = {8: [1, 2, 3, 4, 5, 6, 8], 16: [1, 2, 3, 4, 5, 8, 9], 32: [1, 2, 3, 4, 5, 8, 9], 64: [1, 2, 3, 4, 5, 8, 9]}
 
 # synthetic curves (index in tiny_curves.h)
 TINY_ALL = 0xFFF
@@ -49,12 +51,26 @@ def atag(a):
     return a[0] + ('' if a[1] is None else str(a[1]))
 
 
-def mk(kind, coord, digit, fxp=('BIN', None), unk=('BIN', None), twin='BIN', targets=15, tiny=TINY_ALL, real=REAL_ALL, cost=1.0):
+def mk(kind, coord, digit, fxp=('BIN', None), unk=('BIN', None), twin='BIN', targets=15, tiny=TINY_ALL, real=REAL_ALL, cost=1.0, extra=()):
     name = '%s-%s-d%d-f%s-u%s-t%s' % (kind, coord, digit, atag(fxp), atag(unk), twin)
     flags = list(COORDS[coord]) + ['-DBN_DIGIT_BIT_CNT=%d' % digit, '-DBN_CC_MULL_DIV']
     flags += algo_flags('FXP', fxp) + algo_flags('UNKPT', unk) + ['-DEC_PF_TWIN_MULT_ALGO=%d' % TWIN[twin]]
-    flags += ['-DC02_TARGETS=%d' % targets, '-DC02_TINY_MASK=0x%xu' % tiny, '-DC02_REAL_MASK=0x%xu' % real]
+    flags += ['-DC02_TARGETS=%d' % targets, '-DC02_TINY_MASK=0x%xu' % tiny, '-DC02_REAL_MASK=0x%xu' % real] + list(extra)
+    # the on-stack table types of the unknown-point algorithms are sized by the FXP window (NOTES.md F4):
+    # unless a build is meant to show that, keep the FXP window at least as wide
+    if fxp[1] is None and unk[1] is not None and unk[1] > 8 and '-DC02_PROBE' not in extra:
+        flags.append('-DEC_PF_FXP_MULT_WIN_BITS=%d' % unk[1])
     return dict(name=name, flags=flags, cost=cost, kind=kind, coord=coord, digit=digit)
+
+
+NOFULL = ['-DC02_TWIN_FULL=0']
+
+
+def probe_configs():
+    """F4 (NOTES.md): an unknown-point window wider than the FXP window overruns the on-stack table in
+    every call; these builds run four scalars per curve, just enough to show (or clear) it."""
+    return [mk('probe', coord, 8, fxp=('C1', 2), unk=('C1', 4), targets=T_UNK, tiny=(1 << 0), real=0, cost=1, extra=['-DC02_PROBE'])
+            for coord in ('aff', 'jacMR')]
 
 
 def quick_configs():
@@ -76,12 +92,15 @@ def quick_configs():
     q('jacMR', 8,  ('C2', 5),    ('C1', 3),    'INTER')
     q('jacMR', 64, ('C2', 9),    ('C1', 2),    'INTER')      # what tests/ecdsa/main.c compiles
     q('jacMR', 16, ('C1', 2),    ('C2', 2),    'BIN')
-    return c
+    return c + probe_configs()[:1]
 
 
-def algo_list(with_same=False):
-    l = [('BIN', None), ('PRE', None)] + [('SW', w) for w in SW_W] + [('C1', w) for w in COMB_W] + [('C2', w) for w in COMB_W]
-    return l
+def algo_list(digit):
+    return ([('BIN', None), ('PRE', None)] + [('SW', w) for w in SW_W] +
+            [('C1', w) for w in COMB_W[digit]] + [('C2', w) for w in COMB_W[digit]])
+
+
+D64_SUBSET = [('BIN', None), ('PRE', None), ('SW', 4), ('C1', 3), ('C2', 4), ('C2', 8)]
 
 
 def thorough_configs():
@@ -95,26 +114,26 @@ def thorough_configs():
             c.append(mk('add', coord, digit, targets=T_ADD, real=REAL_SMALL, cost=60))
     # (B) base-point multiplication: coordinates x EC_PF_FXP_MULT_ALGO x window bits
     for coord in COORDS:
-        for a in algo_list():
-            c.append(mk('fxp', coord, 8, fxp=a, targets=T_BP, real=REAL_SMALL, cost=6))
-    for coord in ('aff', 'jacMR'):
-        for a in algo_list():
-            c.append(mk('fxp', coord, 64, fxp=a, targets=T_BP, real=REAL_ALL, cost=(25 if coord == 'aff' else 6)))
+        for a in algo_list(8):
+            c.append(mk('fxp', coord, 8, fxp=a, targets=T_BP, real=REAL_SMALL, cost=4))
+    for a in algo_list(64):
+        c.append(mk('fxp', 'jacMR', 64, fxp=a, targets=T_BP, real=REAL_ALL, cost=15))
+    for a in D64_SUBSET:
+        c.append(mk('fxp', 'aff', 64, fxp=a, targets=T_BP, real=REAL_ALL, cost=25))
     for digit in (16, 32):
-        for a in (('SW', 4), ('C1', 3), ('C2', 4), ('C2', 8)):
+        for a in (('SW', 4), ('C1', 3), ('C2', 4)):
             c.append(mk('fxp', 'jacMR', digit, fxp=a, targets=T_BP, real=REAL_SMALL, cost=6))
     # (C) unknown-point multiplication: coordinates x EC_PF_UNKPT_MULT_ALGO x window bits
     for coord in COORDS:
-        for a in algo_list():
+        for a in algo_list(8):
             c.append(mk('unk', coord, 8, unk=a, targets=T_UNK, real=(1 << 2), cost=12))
         c.append(mk('unk', coord, 8, fxp=('C2', 4), unk=('SAME', None), targets=T_UNK, real=(1 << 2), cost=12))
-    for coord in ('aff', 'jacMR'):
-        for a in algo_list():
-            wide = a[1] is not None and a[1] >= 6
-            real = (REAL_REPR_AFF if coord == 'aff' else REAL_REPR)
-            if wide:
-                real = REAL_QUICK_AFF if coord == 'aff' else REAL_QUICK
-            c.append(mk('unk', coord, 64, unk=a, targets=T_UNK, real=real, cost=(40 if coord == 'aff' else 15)))
+    for a in algo_list(64):
+        wide = a[1] is not None and a[1] >= 8
+        c.append(mk('unk', 'jacMR', 64, unk=a, targets=T_UNK, real=(REAL_QUICK if wide else REAL_REPR), cost=20))
+    for a in D64_SUBSET:
+        wide = a[1] is not None and a[1] >= 8
+        c.append(mk('unk', 'aff', 64, unk=a, targets=T_UNK, real=(REAL_QUICK_AFF if wide else REAL_REPR_AFF), cost=40))
     for digit in (16, 32):
         for a in (('SW', 4), ('C1', 3), ('C2', 2)):
             c.append(mk('unk', 'jacMR', digit, unk=a, targets=T_UNK, real=(1 << 2), cost=12))
@@ -124,7 +143,8 @@ def thorough_configs():
             c.append(mk('twin', coord, 8, twin=tw, targets=T_TWIN, real=(1 << 2), cost=100))
     for coord in ('aff', 'jacMR'):
         for tw in ('BIN', 'JOINT', 'INTER'):
-            c.append(mk('twin', coord, 64, twin=tw, targets=T_TWIN, real=(REAL_REPR_AFF if coord == 'aff' else REAL_ALL), cost=100))
+            c.append(mk('twin', coord, 64, twin=tw, targets=T_TWIN, real=(REAL_REPR_AFF if coord == 'aff' else REAL_ALL),
+                        cost=30, extra=NOFULL))
     fam_f = [('BIN', None), ('PRE', None), ('SW', 4), ('C1', 3), ('C2', 4)]
     fam_u = [('BIN', None), ('PRE', None), ('SW', 2), ('C1', 2), ('C2', 3)]
     for coord in COORDS:
@@ -132,11 +152,13 @@ def thorough_configs():
             for u in fam_u:
                 if f[0] == 'BIN' and u[0] == 'BIN':
                     continue        # the header folds this one into TWIN_ALGO_BIN
-                c.append(mk('twinfu', coord, 8, fxp=f, unk=u, twin='FU', targets=T_TWIN, real=(1 << 2), cost=8))
+                full = (f[0] == 'C2' and u[0] == 'C1')      # the combination nearest to the defaults gets the full space
+                c.append(mk('twinfu', coord, 8, fxp=f, unk=u, twin='FU', targets=T_TWIN, real=(1 << 2),
+                            cost=(100 if full else 8), extra=([] if full else NOFULL)))
     for coord in ('aff', 'jacMR'):
         c.append(mk('twinfu', coord, 64, fxp=('C2', 9), unk=('C1', 2), twin='FU', targets=T_TWIN,
-                    real=(REAL_REPR_AFF if coord == 'aff' else REAL_REPR), cost=30))
-    return c
+                    real=(REAL_REPR_AFF if coord == 'aff' else REAL_REPR), cost=30, extra=NOFULL))
+    return c + probe_configs()
 
 
 CFLAGS_COMMON = ['-fsanitize=address', '-fsanitize-recover=address', '-fno-omit-frame-pointer',
